@@ -104,7 +104,8 @@ def build_ocaml():
     with Lock("ocaml"):
         d = os.path.join(BUILD, "ocaml")
         os.makedirs(d, exist_ok=True)
-        srcs = [os.path.join(COQ, "extract", "Extract.v"), os.path.join(ROOT, "ocaml", "driver.ml")]
+        srcs = [os.path.join(COQ, "extract", "Extract.v"), os.path.join(ROOT, "ocaml", "driver.ml"),
+                os.path.join(COQ, "extract", "ExtractReplay.v"), os.path.join(ROOT, "ocaml", "rdriver.ml")]
         deps = srcs + glob.glob(os.path.join(COQ, "theories", "*.vo"))
         h = hashlib.sha256()
         for p in sorted(deps):
@@ -114,7 +115,7 @@ def build_ocaml():
             else:
                 h.update(open(p, "rb").read())
         stamp = os.path.join(d, "stamp")
-        if os.path.exists(stamp) and open(stamp).read() == h.hexdigest() and os.path.exists(os.path.join(BIN, "driver")):
+        if os.path.exists(stamp) and open(stamp).read() == h.hexdigest() and os.path.exists(os.path.join(BIN, "driver")) and os.path.exists(os.path.join(BIN, "rdriver")):
             return True, ""
         r = sh(["timeout", "600", "coqc", "-R", os.path.join(COQ, "theories"), "SP", srcs[0]], cwd=d)
         if r.returncode != 0:
@@ -123,11 +124,18 @@ def build_ocaml():
         r = sh(["ocamlfind", "ocamlopt", "-O2", "-w", "-a", "-package", "str", "model.mli", "model.ml", "driver.ml", "-o", os.path.join(BIN, "driver")], cwd=d, timeout=600)
         if r.returncode != 0:
             return False, r.stdout
+        r = sh(["timeout", "600", "coqc", "-R", os.path.join(COQ, "theories"), "SP", srcs[2]], cwd=d)
+        if r.returncode != 0:
+            return False, r.stdout
+        shutil.copy(srcs[3], d)
+        r = sh(["ocamlfind", "ocamlopt", "-O2", "-w", "-a", "rmodel.mli", "rmodel.ml", "rdriver.ml", "-o", os.path.join(BIN, "rdriver")], cwd=d, timeout=600)
+        if r.returncode != 0:
+            return False, r.stdout
         open(stamp, "w").write(h.hexdigest())
         return True, ""
 
 
-MODEL_FILES = ["TempDirModel", "Format", "WfModel", "Components", "Report", "Json"]   # what Extract.v needs (kept free of proofs about Gen.v)
+MODEL_FILES = ["TempDirModel", "Format", "WfModel", "Components", "Report", "Json", "ReplayInst"]   # what Extract.v needs (kept free of proofs about Gen.v)
 
 
 def assumptions(module, theorems):
